@@ -190,6 +190,14 @@ def judge(rep, t, st, p, tw, c, src, obs):
             "probe": c["e"], "position": p, "two_passes": tw, "declarative": doc, "as_coded": mach, "observed": obs,
             "deviations": c["dev"]}
     devs = sorted(c["dev"])
+    if obs["k"] == "crash" and obs["how"] == "timeout" and getattr(t, "bld", None) is not None:
+        # DESIGN 2.4 rule 3: a hang is a verdict only if it repeats - the case is run once more, alone and with a
+        # generous limit (the batch limits of 3..8 s are exceeded by a healthy assembler on an overloaded machine)
+        one, slots1 = render(st, p, tw, [c])
+        r1 = aslrun.assemble(t.bld, {"a.asm": one}, opts=opts(st), timeout=90)
+        obs = observe(r1, slots1[0][0], slots1[0][1])
+        info["observed"] = obs
+        t.reconfirmed = getattr(t, "reconfirmed", 0) + 1
     if obs["k"] == "crash":
         t.bad += 1
         hang = obs["how"] == "timeout"
@@ -342,6 +350,7 @@ def run(rep, bld, tier):
     if not states:
         raise CheckError("UserFunc_MC printed no case")
     t = Tally()
+    t.bld = bld
     n_states, n_all = len(states), sum(len(s["cases"]) for s in states)
     with Phase("userfunc: replay of %d cases of %d programs into the real asl" % (n_all, n_states)):
         # the programs with a recursion first (a hanging assembler costs seconds), then chunks (memory of the worker pool)
